@@ -138,7 +138,7 @@ def append_only_rule(ctx, rep, prop):
         from closures import run_closure
         entry = AdtVal("tuple", None, {0: Cell(Opaque("ID")), 1: Cell(Opaque("fr", "parser::ParseFileResult<ID>"))})
         ops = ["validation::resolve_types", "validation::check_imports", "validation::check_declared_parcelables", "validation::check_containers", "validation::set_up_oneway_interface", "validation::check_methods"]
-        cp, _ = run_closure(facts, clo, {"defined": sym_ref("defined")}, [entry], opaque_fns=ops)
+        cp, _ = run_closure(facts, clo, {"defined": sym_ref("defined")}, [entry], opaque_fns=ops, lenient=True)   # what the closure captures is C13's / rule PL's business
         okd = len(cp) >= 2
         for p in cp:
             r = p.ret
